@@ -23,6 +23,8 @@ type Solver struct {
 	dur     time.Duration
 	slowest time.Duration
 	log     *bufio.Writer
+	dead    bool
+	hardMs  int
 }
 
 func newSolver(kind string, timeoutMs int) *Solver {
@@ -42,7 +44,12 @@ func newSolver(kind string, timeoutMs int) *Solver {
 	if err := cmd.Start(); err != nil {
 		panic(err)
 	}
-	s := &Solver{cmd: cmd, in: in, out: bufio.NewReaderSize(out, 1<<16), name: kind}
+	s := &Solver{cmd: cmd, in: in, out: bufio.NewReaderSize(out, 1<<16), name: kind, hardMs: 2*timeoutMs + 3000}
+	if p := os.Getenv("GOSYM_SMTLOG"); p != "" {
+		if f, err := os.Create(p); err == nil {
+			s.log = bufio.NewWriter(f)
+		}
+	}
 	if kind != "cvc5" {
 		s.send("(set-option :produce-models true)")
 		s.send(fmt.Sprintf("(set-option :timeout %d)", timeoutMs))
@@ -59,15 +66,21 @@ func (s *Solver) close() {
 func (s *Solver) send(l string) {
 	if s.log != nil {
 		s.log.WriteString(l + "\n")
+		s.log.Flush()
 	}
 	io.WriteString(s.in, l+"\n")
 }
 
 func (s *Solver) readAnswer() string {
+	// watchdog: nlsat sometimes ignores the soft timeout; kill the process after a hard limit
+	wd := time.AfterFunc(time.Duration(s.hardMs)*time.Millisecond, func() { s.dead = true; s.cmd.Process.Kill() })
+	defer wd.Stop()
 	for {
 		line, err := s.out.ReadString('\n')
 		if err != nil {
-			panic(engErr("solver died: " + err.Error()))
+			s.dead = true
+			s.unknown++
+			panic(engErr("solver hung or died (hard timeout): " + err.Error()))
 		}
 		line = strings.TrimSpace(line)
 		if line == "" {
